@@ -83,9 +83,18 @@ def loopReplay (maxIter : Int) (fuel : Nat) (ms os : List Bool) : String :=
 open FV.GlbOpt in
 def showV : GlbOpt.V → String
   | .a m c => s!"a:{m}:{c}" | .x m => s!"x:{m}" | .y m => s!"y:{m}" | .d m => s!"d:{m}"
+  | .ex e => s!"ex:{e}" | .ey e => s!"ey:{e}"
+
+/-- general expressions in prefix notation. -/
+def showX : GlbOpt.X α → String
+  | .num v => s!"n {sc v}" | .var v => s!"v {showV v}"
+  | .add a b => s!"+ {showX a} {showX b}" | .sub a b => s!"- {showX a} {showX b}"
+  | .mul a b => s!"* {showX a} {showX b}" | .div a b => s!"/ {showX a} {showX b}"
+  | .sq a => s!"^2 {showX a}"
 
 def showT : GlbOpt.T α → String
   | .num v => s!"n {sc v}" | .var v => s!"v {showV v}" | .lin k v => s!"l {sc k} {showV v}"
+  | .gen e => s!"g {showX e}"
 
 def showTs (l : List (GlbOpt.T α)) : String := s!"{l.length}" ++ String.join (l.map fun t => " " ++ showT t)
 
@@ -95,12 +104,14 @@ def showE : GlbOpt.E α → String
   | .scaled k l => s!"K {sc k} " ++ showTs l
   | .diff p q => s!"D {showV p} {showV q}"
   | .sqdiff p q => s!"Q {showV p} {showV q}"
+  | .sumDiv l n => s!"V {sc n} " ++ showTs l
+  | .gen e => s!"G {showX e}"
 
 def showCmp : GlbOpt.Cmp → String | .le => "LE" | .ge => "GE" | .eq => "EQ"
 
 def showRow : GlbOpt.Row α → String
   | .eqn _ l c r => s!"E {showCmp c} {showE l} ; {showE r}"
-  | .stub k w => s!"stub {k} {w}"
+  | .obj _ e => s!"O {showE e}"
 
 def showOpt : Option α → String | none => "-" | some v => sc v
 
@@ -109,19 +120,20 @@ def showPosted (p : GlbOpt.Posted α) : String :=
   s!" || {p.consts.length}" ++ String.join (p.consts.map fun (v, x) => s!" | {showV v} {sc x}") ++
   s!" || {p.rows.length}" ++ String.join (p.rows.map fun r => " | " ++ showRow r)
 
-def glbOp (op : String) (args : List String) : Option String :=
+/-- `powF`: Python's `float ** number` at this scalar type. -/
+def glbOp (powF : α → α → α) (op : String) (args : List String) : Option String :=
   match op with
   | "post" =>
       (runP (do
-        let die ← pRect (α := α); let eps ← pSc; let thr ← pSc
+        let die ← pRect (α := α); let eps ← pSc; let thr ← pSc; let alpha ← pSc
         let offered ← pList (pOffered (α := α))
         let mods ← pList (do let m ← pGModule (α := α); let a ← pSc (α := α); pure (m, a))
-        let edges ← pList pNat
-        pure (die, eps, thr, offered, mods, edges)) args).map fun (die, eps, thr, offered, mods, edges) =>
+        let edges ← pList (do let w ← pSc (α := α); let pins ← pList tok; pure (w, pins))
+        pure (die, eps, thr, alpha, offered, mods, edges)) args).map fun (die, eps, thr, alpha, offered, mods, edges) =>
         let areaOf : String → α := fun n => match (mods.map fun (m, a) => (m.name, a)).lookup n with
           | some a => a | none => Glb.zero
-        showPosted (GlbOpt.post { die := die, epsD := eps, thr := thr, offered := offered, mods := mods.map (·.1),
-                                  areaOf := areaOf, edgeSizes := edges })
+        showPosted (GlbOpt.post { die := die, epsD := eps, thr := thr, alpha := alpha, offered := offered,
+                                  mods := mods.map (·.1), areaOf := areaOf, edges := edges, powF := powF })
   | "loop" => (runP (do let mi ← pInt; let fuel ← pNat; let ms ← pList pBool; let os ← pList pBool; pure (mi, fuel, ms, os)) args).map
       fun (mi, fuel, ms, os) => loopReplay mi fuel ms os
   | "sum" => (runP (pList (pSc (α := α))) args).map fun xs => sc (pySum xs)
